@@ -117,8 +117,12 @@ func c15Check(k c15Case, want []byte) error {
 	for _, path := range c15Paths() {
 		old := argon2.VerifSetUseSSE4(path.sse4)
 		var got []byte
+		pwd0, salt0 := append([]byte{}, k.pwd...), append([]byte{}, k.salt...)
 		msg, panicked := catch(func() { got = k.run() })
 		argon2.VerifSetUseSSE4(old)
+		if !bytes.Equal(pwd0, k.pwd) || !bytes.Equal(salt0, k.salt) {
+			return fmt.Errorf("%v path=%s: the call modified its password/salt arguments", k, path.name)
+		}
 		if panicked {
 			return fmt.Errorf("%v path=%s: panicked: %s", k, path.name, msg)
 		}
@@ -127,6 +131,26 @@ func c15Check(k c15Case, want []byte) error {
 		}
 	}
 	return nil
+}
+
+// c15BoundaryThreads: values around the powers of two up to the stated limit of 255 lanes.
+var c15BoundaryThreads = []int{17, 31, 32, 33, 63, 64, 65, 127, 128, 129, 191, 192, 193, 254, 255}
+
+func c15ThreadsClass(p uint8) string {
+	switch {
+	case p == 1:
+		return "threads=1"
+	case p <= 16:
+		return "threads=2..16"
+	case p < 64:
+		return "threads=17..63"
+	case p < 128:
+		return "threads=64..127"
+	case p < 192:
+		return "threads=128..191"
+	default:
+		return "threads=192..255"
+	}
 }
 
 func c15MemClass(m uint32, p uint8) string {
@@ -248,7 +272,13 @@ func TestC15(t *testing.T) {
 			k.mode = ref.Argon2id
 		}
 		k.t = uint32(rapid.IntRange(1, 3).Draw(rt, "time"))
-		switch rapid.IntRange(0, 7).Draw(rt, "threadsClass") {
+		boundaryP := false
+		switch rapid.IntRange(0, 8).Draw(rt, "threadsClass") {
+		case 8:
+			// the statement covers threads 1..255: boundary values up to the limit, with memory 8*threads (+0, +1,
+			// +4*threads-1) and one pass so that the cost stays small
+			k.p = uint8(rapid.SampledFrom(c15BoundaryThreads).Draw(rt, "threadsBoundary"))
+			boundaryP = true
 		case 0, 1:
 			k.p = 1
 		case 2:
@@ -271,6 +301,10 @@ func TestC15(t *testing.T) {
 			k.m = min(256, 4*p32*uint32(rapid.IntRange(2, max(2, int(64/p32))).Draw(rt, "memMul"))+uint32(rapid.IntRange(1, int(4*p32)-1).Draw(rt, "memRem")))
 		default:
 			k.m = uint32(rapid.IntRange(1, 256).Draw(rt, "mem"))
+		}
+		if boundaryP {
+			k.t = 1
+			k.m = 8*p32 + []uint32{0, 1, 4*p32 - 1}[rapid.IntRange(0, 2).Draw(rt, "memBoundary")]
 		}
 		switch rapid.IntRange(0, 5).Draw(rt, "keyLenClass") {
 		case 0, 1:
@@ -295,7 +329,8 @@ func TestC15(t *testing.T) {
 			rt.Fatalf("VF-VIOLATION: property=C15 %v", err)
 		}
 		// third implementation on the sub-domain it accepts; judges the reference only
-		if lib == nil && libMismatch == nil && len(k.salt) >= 8 && k.keyLen >= 4 && k.m >= 8*p32 {
+		// (libargon2 starts one OS thread per lane and slice: many-lane cases are compared in the thorough tier / table only)
+		if lib == nil && libMismatch == nil && len(k.salt) >= 8 && k.keyLen >= 4 && k.m >= 8*p32 && (k.p <= 16 || (ev.Thorough() && k.p <= 64)) {
 			got, err := clibhashes.Argon2Hash(k.mode, k.pwd, k.salt, k.t, k.m, p32, k.keyLen)
 			if err != nil {
 				libMismatch = fmt.Errorf("libargon2 refused %v: %v", k, err)
@@ -317,7 +352,7 @@ func TestC15(t *testing.T) {
 		}
 		for _, path := range c15Paths() {
 			c.Case(nontrivial, fmt.Sprintf("%d|t%d|m%d|p%d|k%d|%s|%s|%s", k.mode, k.t, k.m, k.p, k.keyLen, plc, slc, path.name),
-				map[int]string{ref.Argon2i: "argon2i", ref.Argon2id: "argon2id"}[k.mode], mc, klc, fmt.Sprintf("threads=%s", map[bool]string{true: "1", false: ">=2"}[k.p == 1]), "pwd:"+plc, "salt:"+slc)
+				map[int]string{ref.Argon2i: "argon2i", ref.Argon2id: "argon2id"}[k.mode], mc, klc, c15ThreadsClass(k.p), "pwd:"+plc, "salt:"+slc)
 		}
 		if c.WantSample() {
 			c.Sample(map[string]any{"mode": k.mode, "pwd": ev.Hex(k.pwd), "salt": ev.Hex(k.salt), "time": k.t, "memory": k.m, "threads": k.p, "keyLen": k.keyLen, "tag": ev.Hex(want)})
@@ -341,6 +376,30 @@ func TestC15(t *testing.T) {
 	if k, n := ev.Shard(); ev.Thorough() && k == n-1 {
 		directed = append(directed, c15Case{ref.Argon2id, []byte("p"), []byte("saltsalt"), 1, 2040, 255, 65}, c15Case{ref.Argon2i, []byte("p"), []byte("saltsalt"), 1, 100, 255, 33})
 	}
+	// parameter limits: every boundary thread count x memory {8p, 8p+1, 12p-1}, one pass
+	for bi, bp := range c15BoundaryThreads {
+		for mi, extra := range []uint32{0, 1, 4*uint32(bp) - 1} {
+			if !ev.Mine(bi*3 + mi) {
+				continue
+			}
+			kk := c15Case{mode: ref.Argon2i + (bi+mi)%2, pwd: seqBytes(bi + 3), salt: seqBytes(8 + mi), t: 1, m: 8*uint32(bp) + extra, p: uint8(bp), keyLen: []uint32{32, 65, 4, 96}[(bi+mi)%4]}
+			want := ref.Argon2(kk.mode, kk.pwd, kk.salt, nil, nil, kk.t, kk.m, uint32(kk.p), kk.keyLen)
+			if err := c15Check(kk, want); err != nil {
+				c.Violation(err.Error(), "")
+				t.Fatalf("VF-VIOLATION: property=C15 %v", err)
+			}
+			if lib == nil && ev.Thorough() {
+				if got, err := clibhashes.Argon2Hash(kk.mode, kk.pwd, kk.salt, kk.t, kk.m, uint32(kk.p), kk.keyLen); err != nil || !bytes.Equal(got, want) {
+					msg := fmt.Sprintf("reference and libargon2 disagree on %v: reference %x libargon2 %x (err %v)", kk, want, got, err)
+					c.Inconclusive(msg)
+					t.Fatal(msg)
+				}
+				c.Class("libargon2-compared")
+			}
+			c.Case(true, "threads-limit|"+kk.String(), "threads-limit-table", c15ThreadsClass(kk.p), c15MemClass(kk.m, kk.p))
+		}
+	}
+	c.Exhaustive("threads in {17,31,32,33,63,64,65,127,128,129,191,192,193,254,255} x memory {8p, 8p+1, 12p-1} x both block-function paths", len(c15BoundaryThreads)*3)
 	for i, k := range directed {
 		if !ev.Mine(i) && k.p != 255 {
 			continue
@@ -355,7 +414,7 @@ func TestC15(t *testing.T) {
 	// concurrency part: Key/IDKey are package-level functions that real callers run from many goroutines.
 	// Small memory, so that the H0/initial-block phase is a large share of every call and phases overlap often.
 	{
-		failure, calls, ks := concPart("C15", ev.Scale(2400, 12000), func(d *drbg, w int) []concJob {
+		failure, calls, ks := concPart("C15", ev.Scale(1500, 12000), func(d *drbg, w int) []concJob {
 			var jobs []concJob
 			for i := 0; i < 6; i++ {
 				k := c15Case{mode: ref.Argon2i + d.intn(2), pwd: d.bytes(d.intn(33)), salt: d.bytes(8 + d.intn(9)),
